@@ -4,9 +4,12 @@ worktree /tmp/seed/Cxx/wt, run the pinned suite (must keep all stable_pass) and 
 demo.py again (must pass).  Confirmed ones are copied to /verif/seeded/Cxx-k/ with meta.json extended."""
 import glob, json, os, shutil, subprocess, sys
 ROOT = "/tmp/seed"
+ONLY = set(sys.argv[1:])
 out = []
 for d in sorted(glob.glob(ROOT + "/C*/out/*")):
     pid = d.split("/")[3]; k = os.path.basename(d)
+    if ONLY and pid not in ONLY:
+        continue
     if not os.path.exists(d + "/patch.diff") or not os.path.exists(d + "/demo.py"):
         continue
     dest = "/verif/seeded/%s-%s" % (pid, k)
